@@ -225,6 +225,29 @@ Fixpoint array_insert_input (a : array) (index : nat) (vs : list V) : res array 
   | v :: t => a1 <- array_insert_crt a index v ;; array_insert_input a1 (S index) t
   end.
 
+(* ---- copy / move / swap of whole arrays ----
+   Array(const Array& array) = Array(array, /*shrink*/ true): Data(count): external storage of exactly count slots if count >
+   internalCapacity, else the internal buffer; the items are copy-constructed (a copy of a moved-from object is moved-from).
+   operator=(const Array&) is  *this = Array(array). *)
+Definition array_copy (a : array) : array :=
+  let count := cnt (body a) in
+  let newCap := if ic <? count then count else ic in
+  mkArray (mkArr (firstn count (cells (body a)) ++ raws (newCap - count)) count)
+          (if ic <? count then S (allocs a) else allocs a).
+(* Array(Array&&): Data(Data&&): external storage is taken over, internal items are relocated; the source becomes empty (pvInit) *)
+Definition array_move_construct (a : array) : array * array := (a, mkArray (mkArr (raws ic) 0) (allocs a)).
+(* operator=(Array&&): pvDestroy of the target (items destroyed, storage freed), then as the move constructor *)
+Definition array_move_assign (target source : array) : res (array * array) :=
+  _c <- destroy V (cells (body target)) 0 (cnt (body target)) ;;
+  Ok (mkArray (body source) (allocs target), mkArray (mkArr (raws ic) 0) (allocs target)).
+(* Swap: std::swap(mData, array.mData) *)
+Definition array_swap (a b : array) : array * array := (b, a).
+(* the scripts' round trips: `C d(c); c.Swap(d);` and `C d(std::move(c)); c = std::move(d);` *)
+Definition array_copy_round (a : array) : res array := Ok (fst (array_swap a (array_copy a))).
+Definition array_move_round (a : array) : res array :=
+  let (d, c0) := array_move_construct a in
+  r <- array_move_assign c0 d ;; Ok (fst r).
+
 Definition array_empty : array := mkArray (mkArr (raws ic) 0) 0.
 
 (* ---- scripts ---- *)
@@ -233,7 +256,8 @@ Inductive op :=
 | OInsert (index count : nat) (x : arg) | OInsertR (index : nat) (x : arg) | OInsertRange (index : nat) (vs : list V)
 | ORemove (index count : nat) | ORemoveFilter (p : V -> bool)
 | OSetCount (n : nat) (x : arg) | OAssign (n : nat) (x : arg) | OAssignRange (vs : list V)
-| ORemoveBack (n : nat) | OClear (shrink : bool) | OInsertInput (index : nat) (vs : list V) | OReserve (n : nat) | OShrink (n : nat) | OSet (i : nat) (v : V).
+| ORemoveBack (n : nat) | OClear (shrink : bool) | OInsertInput (index : nat) (vs : list V) | OReserve (n : nat) | OShrink (n : nat) | OSet (i : nat) (v : V)
+| OCopyRound | OMoveRound.
 
 Definition run_op (a : array) (o : op) : res array :=
   match o with
@@ -253,6 +277,8 @@ Definition run_op (a : array) (o : op) : res array :=
   | OReserve n => array_reserve a n
   | OShrink n => array_shrink a n
   | OSet i v => array_set a i v
+  | OCopyRound => array_copy_round a
+  | OMoveRound => array_move_round a
   end.
 
 (* the first cnt cells, as the sequence an observer sees (None = a moved-from element) *)
